@@ -353,6 +353,14 @@ pub fn case_mode(ctx: &mut Ctx, xml: &str, fragment: bool, ex: &Expect) {
                     for c in &c02 {
                         ctx.fail("C02", c, "the parsed tree is not the document that was spelled", entry, xml);
                     }
+                    // the id a parsed name received denotes another expanded name than the one the text
+                    // spells: "registered implicitly by parsing … names compare equal exactly when their
+                    // expanded names are equal" (C08; seed C08g)
+                    for c in &c02 {
+                        if matches!(c.as_str(), "element-namespace-differs" | "attribute-namespace-differs" | "element-local-name-differs") {
+                            ctx.fail("C08", &format!("parsed-name-id-denotes-another-expanded-name:{}", c), "a name registered by parsing carries the id of another expanded name than the one the text spells", entry, xml);
+                        }
+                    }
                     if shape_ok {
                         expected_spans(&vocab, seen, r, &mut c17);
                     }
